@@ -58,6 +58,9 @@ inductive SlotKind where
     indexes out of bounds and the signer panics. -/
 inductive SigFact where
   | valid | invalid | oob
+  /-- every signature verifies, but the node-wide payment check that FOLLOWS the signature check
+      (`NodeState::validate_payments`: an outgoing HTLC whose invoice/keysend is gone) refuses -/
+  | validUnpaid
   deriving DecidableEq, Repr
 
 inductive Res where
@@ -100,7 +103,7 @@ inductive Op where
   | getSecret (n : Nat)
   | getSecretOrNone (n : Nat)
   | validate (n info : Nat) (sigs : SigFact) (policyOk : Bool)  -- validate_holder_commitment_tx(_phase2)
-  | revoke (n : Nat)                                        -- revoke_previous_holder_commitment
+  | revoke (n : Nat) (payOk : Bool)                                        -- revoke_previous_holder_commitment
   | activate                                                -- activate_initial_commitment
   | signHolder (n : Nat)                                    -- sign_holder_commitment_tx_phase2
   | signRecovery                                            -- sign_holder_commitment_tx_for_recovery
@@ -110,7 +113,7 @@ inductive Op where
   | revokeCp (n : Nat) (secret : Bytes) (pt : Nat)          -- validate_counterparty_revocation
   | restart                                                 -- drop the node, restore from the store
   | hValidate (ver n info : Nat) (sigs : SigFact) (policyOk : Bool) -- handler ValidateCommitmentTx(2)
-  | hRevoke (ver n : Nat)                                   -- handler RevokeCommitmentTx
+  | hRevoke (ver n : Nat) (payOk : Bool)                                   -- handler RevokeCommitmentTx
   | hGetPoint (ver n : Nat)                                 -- handler GetPerCommitmentPoint
   | hGetPoint2 (n : Nat)                                    -- handler GetPerCommitmentPoint2
   deriving DecidableEq, Repr
@@ -199,6 +202,15 @@ def revoke (c : Chan) (n : Nat) : R :=
     let o := release c' n
     if o.res = .ok then { c := c', out := o, persisted := true }
     else { c := { c with nextInfo := none }, out := o }     -- unreachable (see Lemmas), kept for the order
+
+/-- `revoke_previous_holder_commitment(n)` with the node-wide payment re-check made explicit:
+    `payOk` = `NodeState::validate_payments` accepts the staged commitment NOW (its outgoing HTLCs are
+    still backed by an approved invoice/keysend; an expired keysend pruned by the heartbeat, or another
+    channel using the invoice up, makes it false).  The check sits after the closed / staged tests and
+    before any state change (fix f15f20c). -/
+def revokeP (c : Chan) (n : Nat) (payOk : Bool) : R :=
+  if n = c.next ∧ c.closed = false ∧ c.nextInfo ≠ none ∧ payOk = false then fail c .errPolicy
+  else revoke c n
 
 /-- `activate_initial_commitment` -/
 def activate (c : Chan) : R :=
@@ -321,7 +333,7 @@ def chanStep (F : Nat → Bytes → Bytes) (c : Chan) : Op → R
   | .getSecret n => { c := c, out := getSecret c n }
   | .getSecretOrNone n => { c := c, out := getSecretOrNone c n }
   | .validate n info sv pk => needReady c (validate · n info sv pk)
-  | .revoke n => needReady c (revoke · n)
+  | .revoke n po => needReady c (revokeP · n po)
   | .activate => needReady c activate
   | .signHolder n => needReady c (signHolder · n)
   | .signRecovery => needReady c signRecovery
@@ -337,11 +349,11 @@ def chanStep (F : Nat → Bytes → Bytes) (c : Chan) : Op → R
         else if n > 0 then
           (if n + 1 > U64.MAX then fail c1 .panic else fail c1 (getPoint c1 (n + 1)))
         else activate c1
-  | .hRevoke ver n =>
+  | .hRevoke ver n po =>
     if ver < PROTOCOL_VERSION_REVOKE then fail c .errInvalid
     else needReady c fun c =>
       if n + 1 > U64.MAX then fail c .panic else      -- `commit_num + 1` inside the closure
-      let r := revoke c (n + 1)
+      let r := revokeP c (n + 1) po
       -- `old_secret_reply.ok_or_else(invalid_argument)`: a reply without secret is an error,
       -- the state change (if any) stays
       if r.out.res = .ok ∧ r.out.secret = none then { r with out := { res := .errInvalid } } else r
